@@ -74,6 +74,15 @@ func VerifC14Namespace() {
 	st := w.newState(1)
 	ctx := ctxFor(st)
 	ref := c14Ref{names: map[string]bool{"INBOX": true}, subs: map[string]bool{"INBOX": true}}
+	// C04: every mailbox object that comes into existence under a name gets a UIDVALIDITY above every value the
+	// name ever had (the generator's own monotonicity is VerifC04Generator's subject: here it counts up from 100)
+	w.user.uidValSeq = 100
+	seenBox := map[imap.InternalMailboxID]bool{}
+	maxUIDV := map[string]imap.UID{}
+	for _, b := range w.db.Boxes {
+		seenBox[b.ID] = true
+		maxUIDV[b.Name] = b.UIDValidity
+	}
 	for step := 0; step < k; step++ {
 		name := c14Names[vsymChoice("name", len(c14Names))]
 		switch vsymChoice("op", 5) {
@@ -162,6 +171,18 @@ func VerifC14Namespace() {
 			} else {
 				vsymAssert(err == nil, "UNSUBSCRIBE succeeds")
 				delete(ref.subs, name)
+			}
+		}
+		for _, b := range w.db.Boxes {
+			if !seenBox[b.ID] {
+				seenBox[b.ID] = true
+				if prev, had := maxUIDV[b.Name]; had {
+					vsymCover("name-recreated")
+					vsymAssert(b.UIDValidity > prev, "a re-created mailbox name gets a UIDVALIDITY above every earlier value of that name")
+				}
+			}
+			if b.UIDValidity > maxUIDV[b.Name] {
+				maxUIDV[b.Name] = b.UIDValidity
 			}
 		}
 		// compare the name set and subscription state (recovery mailbox excluded)
